@@ -89,3 +89,54 @@ Theorem c21_caches_bounded :
   forall cp d ops, caches_bounded cp (fst (run_fixed cp (new_store d) ops)).
 Proof. exact reachable_bounded. Qed.
 Print Assumptions c21_caches_bounded.
+
+(* ---- concurrent use (open finding C21-stale-fill-across-write) ------------------------------
+
+   The theorems above are about whole operations one after the other.  Under
+   concurrent use the steps of a cache fill (db.Get, then lru.Add) and of a save
+   (database write, then cache removal) of different goroutines interleave;
+   C21/Conc.v models exactly these four steps for any number of goroutines and
+   keys ([crun], schedules are arbitrary lists of steps). *)
+From C21 Require Import Conc ConcProofs.
+
+(* The property does NOT hold for every schedule: a fill that has fetched the old
+   value, a complete save (database write and invalidation) going by, then the
+   fill's lru.Add -- all operations have returned ([c_pend], [c_fills] empty) and
+   the cache holds a value the database does not. *)
+Theorem C21_refuted_stale_fill :
+  exists (d : ckey -> cval) (l : list cstep),
+    let s := crun (cinit d) l in
+    c_pend s = [] /\ c_fills s = [] /\ exists k, ~ key_transparent s k.
+Proof. exact refuted_stale_fill. Qed.
+Print Assumptions C21_refuted_stale_fill.
+
+(* Outside that class it holds: for EVERY schedule in which no cache invalidation
+   finds a fill of its key still in flight that was already in flight at the same
+   writer's database write ([guarded]: no complete write inside a fill; any other
+   overlap of fills and writes is allowed), once no invalidation is owed any more
+   every cached value is the database value. *)
+Theorem C21_holds_outside :
+  forall (d : ckey -> cval) (l : list cstep),
+    guarded (cinit d) l = true ->
+    c_pend (crun (cinit d) l) = [] ->
+    forall k v, c_cache (crun (cinit d) l) k = Some v -> v = c_db (crun (cinit d) l) k.
+Proof. exact holds_outside. Qed.
+Print Assumptions C21_holds_outside.
+
+(* In particular for every schedule in which no database write of a key happens
+   between the db.Get and the lru.Add of a fill of that key. *)
+Theorem C21_holds_outside_nonoverlapping :
+  forall (d : ckey -> cval) (l : list cstep),
+    disjoint_fills (cinit d) l = true ->
+    c_pend (crun (cinit d) l) = [] ->
+    forall k v, c_cache (crun (cinit d) l) k = Some v -> v = c_db (crun (cinit d) l) k.
+Proof. exact holds_nonoverlapping. Qed.
+Print Assumptions C21_holds_outside_nonoverlapping.
+
+(* The invariant behind it, from any state that satisfies it: a cached value is the
+   database value or an invalidation of its key is owed; a value held by a fill in
+   flight is the database value or a writer that crossed the fill owes its invalidation. *)
+Theorem C21_conc_inv_step :
+  forall s x, cinv s -> cstep_ok s x = true -> cinv (cstep_run s x).
+Proof. exact cinv_step. Qed.
+Print Assumptions C21_conc_inv_step.
